@@ -165,6 +165,21 @@ func c08Build() {
 	add := func(family, text string) {
 		c08List = append(c08List, struct{ text, family string }{text, family})
 	}
+	// letters and digits of other alphabets glued to a name: a syntax fault whatever the document
+	for i := 0; i < 768; i += 1 {
+		r := string(rune(0x100 + i))
+		if i%3 == 0 {
+			add("foreign-letter-after-name", "a"+r)
+		} else if i%3 == 1 {
+			add("foreign-letter-after-function", "abs"+r+"(a)")
+		} else {
+			add("foreign-letter-after-variable", "let $v = a in $v"+r)
+		}
+	}
+	for _, r := range []string{"ł", "ж", "あ", "ａ", "０", "𝐚", "é", "ß"} {
+		add("foreign-letter-after-name", "xs[?a"+r+"]")
+		add("foreign-letter-after-name", "{k: a"+r+"}")
+	}
 	plaus := func(fn string, i int) string { return c03Plausible(fn, i) }
 	for _, fn := range ref.FunctionNames() {
 		mn, mx, ex, _ := ref.Arity(fn)
